@@ -249,6 +249,25 @@ bool eval_group(const std::string & op, const std::vector<typename smooth::lieba
   } else if (op == "compose") {
     const G g1 = from_coeffs<G>(A.template vec<Coef>()), g2 = from_coeffs<G>(A.template vec<Coef>());
     put(out, (g1 * g2).coeffs());
+  } else if (op == "mulassign") {  // in-place composition, right operand in separate storage
+    G x = from_coeffs<G>(A.template vec<Coef>());
+    const G g2 = from_coeffs<G>(A.template vec<Coef>());
+    x *= g2;
+    put(out, x.coeffs());
+  } else if (op == "sqassign") {  // x *= x : the right operand IS the left one (same object)
+    G x = from_coeffs<G>(A.template vec<Coef>());
+    x *= x;
+    put(out, x.coeffs());
+  } else if (op == "mulassign_map") {  // x *= Map<const G>(x.data()) : aliased through a view
+    G x = from_coeffs<G>(A.template vec<Coef>());
+    smooth::Map<const G> m(x.data());
+    x *= m;
+    put(out, x.coeffs());
+  } else if (op == "fcompose") {  // free-function API of concepts/lie_group.hpp
+    const G g1 = from_coeffs<G>(A.template vec<Coef>()), g2 = from_coeffs<G>(A.template vec<Coef>());
+    put(out, smooth::composition(g1, g2).coeffs());
+  } else if (op == "finverse") {
+    put(out, smooth::inverse(from_coeffs<G>(A.template vec<Coef>())).coeffs());
   } else if (op == "compose3l") {  // (g1 g2) g3
     const G g1 = from_coeffs<G>(A.template vec<Coef>()), g2 = from_coeffs<G>(A.template vec<Coef>()),
             g3 = from_coeffs<G>(A.template vec<Coef>());
@@ -410,6 +429,11 @@ struct Emit
       const char * t = tag(i);
       go("matrix", t, g1.coeffs());
       go("compose", t, g1.coeffs(), g2.coeffs());
+      go("mulassign", t, g1.coeffs(), g2.coeffs());
+      go("sqassign", t, g1.coeffs());
+      go("mulassign_map", t, g2.coeffs());
+      go("fcompose", t, g2.coeffs(), g3.coeffs());
+      go("finverse", t, g3.coeffs());
       go("compose3l", t, g1.coeffs(), g2.coeffs(), g3.coeffs());
       go("compose3r", t, g1.coeffs(), g2.coeffs(), g3.coeffs());
       go("inverse", t, g1.coeffs());
